@@ -10,7 +10,18 @@ PROP = "C07"
 MODULE = "GmqttVerif.Properties.C07"
 THEOREMS = ["GmqttVerif.Retained.retained_refines_map", "GmqttVerif.Retained.matched_exact",
             "GmqttVerif.Retained.iterate_exact", "GmqttVerif.Retained.iterate_stop_prefix",
-            "GmqttVerif.Retained.matched_exact_hashLast"]
+            "GmqttVerif.Retained.matched_exact_hashLast",
+            # broker level (Properties/C07Broker.lean): B.publish / B.subscribe / B.sendWill and the field B.retained
+            "GmqttVerif.Broker.retained_store_on_publish", "GmqttVerif.Broker.accepted_message",
+            "GmqttVerif.Broker.accepted_iff", "GmqttVerif.Broker.retained_last_value",
+            "GmqttVerif.Broker.retained_last_value_step", "GmqttVerif.Broker.subscribe_replay_exact",
+            "GmqttVerif.Broker.entry_copies_exact", "GmqttVerif.Broker.entry_copies_each_once",
+            "GmqttVerif.Broker.entry_options", "GmqttVerif.Broker.replay_retain_flag_Statement_false",
+            "GmqttVerif.Broker.replay_retain_flag_as_is", "GmqttVerif.Broker.will_retained",
+            "GmqttVerif.Broker.retained_untouched_by_other_ops",
+            "GmqttVerif.Broker.retained_changes_only_by_publish_or_will",
+            "GmqttVerif.Broker.reachable_retained_ok"]
+EXTRA_MODULES = ['GmqttVerif.Properties.C07Broker']
 COMPS = ["retained", "broker"]
 
 LEVELS = ["a", "b", "", "$s"]
